@@ -157,7 +157,7 @@ class Ctx:
         return run([exe] + [str(a) for a in args], cwd=self.work, timeout=timeout, env=env)
 
     # ---------------------------------------------------------------- TIE
-    def coq_eval(self, case_dir, files, timeout=900):
+    def coq_eval(self, case_dir, files, timeout=1800):
         """Evaluates the generated case files; returns (list of (index, code), errors)."""
         results, errors = [], []
 
@@ -168,7 +168,16 @@ class Ctx:
             return f, rc, out
 
         with ThreadPoolExecutor(max_workers=16) as ex:
-            for f, rc, out in ex.map(one, files):
+            outcomes = list(ex.map(one, files))
+        # a shard that timed out (machine under load) is retried once, alone, with a long limit
+        retried = []
+        for f, rc, out in outcomes:
+            if rc == 124:
+                rc, out, _ = run(["coqc", "-q", "-noglob", "-Q", os.path.join(COQ, "theories"), "SL", f],
+                                 cwd=case_dir, timeout=4 * timeout)
+            retried.append((f, rc, out))
+        if True:
+            for f, rc, out in retried:
                 if rc != 0:
                     errors.append(f"{f}: coqc failed: {out[-1500:]}")
                     continue
